@@ -88,7 +88,7 @@ def run(tier, replay=None):
             vectors = []
             for i, r in enumerate(pick):
                 variant = {'split': rng.choice([0, 0, 1, 2]), 'imp': rng.choice(['from', 'import', 'star', 'fromas']), 'main': rng.choice(['from', 'import', 'star', 'fromas']),
-                           'names': rng.choice(['plain', 'plain', 'dunder']), 'cond': rng.random() < 0.25}
+                           'names': rng.choice(['plain', 'plain', 'dunder']), 'cond': rng.random() < 0.25, 'bareann': rng.random() < 0.2}
                 vectors.append([i, r, variant])
         n = core.NCPU
         jobs = [{'vectors': vectors[k::n], 'base': os.path.join(wd, 'fs%d' % k)} for k in range(n)]
